@@ -240,6 +240,8 @@ def judge(cases, oob_is_crash=True):
     """returns (failures against the reference, tie mismatches)"""
     failures, tie = [], []
     for c in cases:
+        if c['impl'].startswith('SKIPPED'):
+            continue
         i = norm_impl(c)
         m = c['model']
         r = c['ref']
